@@ -62,7 +62,7 @@ def _child(batch, start, wfd, scratch, mem_limit):
         except Exception:
             pass
     out = os.fdopen(wfd, "w", buffering=1)
-    from skops.io import get_untrusted_types, loads, visualize
+    from skops.io import get_untrusted_types, load, loads, visualize
 
     with ioarch.Recorder() as rec:                  # safety net: general-purpose callables are never handed out
         for i in range(start, len(batch)):
@@ -76,6 +76,13 @@ def _child(batch, start, wfd, scratch, mem_limit):
             imported = sorted(m for m in set(sys.modules) - mods0 if not m.startswith(("encodings", "skops.")))
             # with an empty trusted list: everything the defaults let through is constructed (native parsers included)
             res["loads"], _ = _classify(lambda: loads(data, trusted=[]))
+            # the path-based entry point, from a directory of its own
+            arch_dir = os.path.join(scratch, "archive-dir")
+            os.makedirs(arch_dir, exist_ok=True)
+            with open(os.path.join(arch_dir, "m.skops"), "wb") as fh:
+                fh.write(data)
+            s0["files"] = _state(scratch)["files"]
+            res["load-file"], _ = _classify(lambda: load(os.path.join(arch_dir, "m.skops"), trusted=[]))
             s1 = _state(scratch)
             # and with every reported name trusted, to get further into construct: crash / hang / exception class only --
             # what importing and calling names the caller vouched for does to the process is the caller's business
